@@ -179,18 +179,34 @@ where
     let ps = Rc::new(RefCell::new(BS { d: vec![None; cap], sh: sh.clone(), tag: 'p', lens: vec![] }));
     let mut rd = ReconstructorData::<U, V>::new(n, bs);
     let mut rs = vec![];
-    {
-        let mut rec: Reconstructor<_, _, _, _, 256, U, V> = rd.hydrate(Mat { n, tbl }, MS::<V> { rows: vec![None; cap], sh: sh.clone() }, PS(ps.clone()), DS(ds.clone()));
+    // every other case re-hydrates the reconstructor before each block (as flash-algo-new's Updater does for every segment),
+    // the others hydrate once (as the crate's unit tests do): the persistent state is ReconstructorData alone
+    let per_block = blocks.len() % 2 == 0;
+    let mut parts = Some((Mat { n, tbl }, MS::<V> { rows: vec![None; cap], sh: sh.clone() }, PS(ps.clone()), DS(ds.clone())));
+    let mut push = |r: Result<Result<BlockResult, _>, _>, rs: &mut Vec<String>| {
+        sh.borrow_mut().log.push(";".into());
+        rs.push(match r {
+            Err(_) => "P".to_string(),
+            Ok(Err(_)) => "E".to_string(),
+            Ok(Ok(BlockResult::NeedMore)) => "N".to_string(),
+            Ok(Ok(BlockResult::TooManyMissing)) => "T".to_string(),
+            Ok(Ok(BlockResult::Done(l))) => format!("D{l:x}"),
+        });
+    };
+    if per_block {
+        for (idx, val) in blocks {
+            let (a, b, c, d) = parts.take().unwrap();
+            let mut rec: Reconstructor<_, _, _, _, 256, U, V> = rd.hydrate(a, b, c, d);
+            let r = guard(|| block_on(rec.handle_block(*idx, val)));
+            parts = Some(rec.desiccate());
+            push(r, &mut rs);
+        }
+    } else {
+        let (a, b, c, d) = parts.take().unwrap();
+        let mut rec: Reconstructor<_, _, _, _, 256, U, V> = rd.hydrate(a, b, c, d);
         for (idx, val) in blocks {
             let r = guard(|| block_on(rec.handle_block(*idx, val)));
-            sh.borrow_mut().log.push(";".into());
-            rs.push(match r {
-                Err(_) => "P".to_string(),
-                Ok(Err(_)) => "E".to_string(),
-                Ok(Ok(BlockResult::NeedMore)) => "N".to_string(),
-                Ok(Ok(BlockResult::TooManyMissing)) => "T".to_string(),
-                Ok(Ok(BlockResult::Done(l))) => format!("D{l:x}"),
-            });
+            push(r, &mut rs);
         }
     }
     let dat: Vec<String> = ds.borrow().d.iter().map(|o| match o { None => "-".into(), Some(b) => num_hex(b) }).collect();
